@@ -25,6 +25,14 @@ pub struct SchedState {
     pub points: [u64; 8],
     /// longest sleep the code under test asked for (nanoseconds)
     pub max_sleep_ns: u64,
+    /// notification-faithful timed waits (see `explore_faithful`)
+    pub faithful: bool,
+    /// tasks asleep inside a timed wait (faithful mode)
+    parked: Vec<usize>,
+    /// at the last scheduling decision every runnable task was asleep in a timed wait
+    all_parked: bool,
+    pub lost_wakeups: u64,
+    pub timeouts_fired: u64,
 }
 impl SchedState {
     fn next_byte(&mut self) -> Option<u8> {
@@ -53,6 +61,13 @@ impl Scheduler for DSched {
     fn next_task(&mut self, runnable: &[&Task], current: Option<TaskId>, _is_yielding: bool) -> Option<TaskId> {
         let mut st = self.st.borrow_mut();
         st.steps += 1;
+        if st.faithful {
+            let ap = runnable.iter().all(|t| {
+                let id: usize = t.id().into();
+                st.parked.contains(&id)
+            });
+            st.all_parked = ap;
+        }
         let spin = std::mem::replace(&mut st.spin_hint, false);
         let cur_runnable = current.and_then(|c| runnable.iter().position(|t| t.id() == c));
         let pick = match st.next_byte() {
@@ -134,6 +149,36 @@ impl SchedHook for Hook {
             st.max_sleep_ns = st.max_sleep_ns.max(dur.as_nanos().min(u64::MAX as u128) as u64);
         }
     }
+    fn faithful_waits(&self) -> bool {
+        self.st.try_borrow().map(|s| s.faithful).unwrap_or(false)
+    }
+    fn wait_parked(&self, parked: bool) {
+        let Some(me) = shuttle::current::get_current_task() else { return };
+        let id: usize = me.into();
+        if let Ok(mut st) = self.st.try_borrow_mut() {
+            st.parked.retain(|t| *t != id);
+            if parked {
+                st.parked.push(id);
+            }
+        }
+    }
+    fn wait_timeout_fires(&self) -> bool {
+        // a timeout is the last resort: it fires only when nobody else can make progress
+        match self.st.try_borrow_mut() {
+            Ok(mut st) => {
+                if st.all_parked {
+                    st.timeouts_fired += 1;
+                }
+                st.all_parked
+            }
+            Err(_) => true,
+        }
+    }
+    fn lost_wakeup(&self) {
+        if let Ok(mut st) = self.st.try_borrow_mut() {
+            st.lost_wakeups += 1;
+        }
+    }
     fn timeout_budget(&self) -> u32 {
         // 0..=3 yields before a timed wait reports a timeout; 1 once the stream is exhausted
         match self.st.borrow_mut().next_byte() {
@@ -162,6 +207,10 @@ pub struct Explored {
     pub points: [u64; 8],
     /// longest sleep requested by the code under test, in nanoseconds
     pub max_sleep_ns: u64,
+    /// faithful mode: waits that slept through the state change that satisfied them, with no
+    /// notification between going to sleep and the timeout
+    pub lost_wakeups: u64,
+    pub timeouts_fired: u64,
     /// panic out of the execution (task panic, deadlock, step bound)
     pub panic: Option<PanicInfo>,
     pub step_bound_hit: bool,
@@ -187,8 +236,29 @@ pub fn explore<F>(decisions: &[u8], max_steps: usize, f: F) -> Explored
 where
     F: Fn() + Send + Sync + 'static,
 {
+    explore_mode(decisions, max_steps, false, f)
+}
+
+/// As `explore`, with notification-faithful timed waits: a waiter sleeps until the condition
+/// variable is notified; its timeout fires only when every runnable task is asleep in such a
+/// wait (last resort).  A wait that ends by timeout and then finds its condition satisfied,
+/// with no notification since it went to sleep, slept through the state change that it was
+/// waiting for (`Explored::lost_wakeups`): with real threads it would have slept for the
+/// whole timeout.
+pub fn explore_faithful<F>(decisions: &[u8], max_steps: usize, f: F) -> Explored
+where
+    F: Fn() + Send + Sync + 'static,
+{
+    explore_mode(decisions, max_steps, true, f)
+}
+
+fn explore_mode<F>(decisions: &[u8], max_steps: usize, faithful: bool, f: F) -> Explored
+where
+    F: Fn() + Send + Sync + 'static,
+{
     let st = Rc::new(RefCell::new(SchedState {
         decisions: decisions.to_vec(),
+        faithful,
         ..SchedState::default()
     }));
     let hook: Rc<dyn SchedHook> = Rc::new(Hook { st: st.clone() });
@@ -220,6 +290,8 @@ where
         decisions_used: s.pos,
         points: s.points,
         max_sleep_ns: s.max_sleep_ns,
+        lost_wakeups: s.lost_wakeups,
+        timeouts_fired: s.timeouts_fired,
         panic,
         step_bound_hit,
         deadlock,
@@ -270,6 +342,8 @@ where
         decisions_used: 0,
         points: s.points,
         max_sleep_ns: s.max_sleep_ns,
+        lost_wakeups: s.lost_wakeups,
+        timeouts_fired: s.timeouts_fired,
         panic,
         step_bound_hit,
         deadlock,
